@@ -561,6 +561,62 @@ func checkSerialised(c *Ctx, res *Resolver, impl *ssa.Function, sites []SQLSite)
 		mu      ssa.Value // the value denoting the step mutex inside fn (nil if not available)
 		entered bool      // held on entry
 	}
+	// the values that denote the step mutex anywhere below impl: the parameter it arrives in, the
+	// parameters it is handed on to, and fields of per-call objects it is stored into (candidate.pgmut)
+	muVals := map[ssa.Value]bool{mu: true}
+	muFields := map[*types.Var]bool{}
+	isMu := func(v ssa.Value) bool {
+		v = stripConv(v)
+		if muVals[v] {
+			return true
+		}
+		if lf, _ := loadedField(v); lf != nil && muFields[lf] {
+			return true
+		}
+		return false
+	}
+	reachable := res.Reachable(impl)
+	for changed := true; changed; {
+		changed = false
+		for fn := range reachable {
+			for _, ci := range callsIn(fn) {
+				args := ci.Common().Args
+				off := 0
+				if ci.Common().IsInvoke() {
+					off = 1
+				}
+				for _, cal := range res.Callees(ci) {
+					for k, a := range args {
+						if isMu(a) && k+off < len(cal.Params) && !muVals[cal.Params[k+off]] {
+							muVals[cal.Params[k+off]] = true
+							changed = true
+						}
+					}
+				}
+			}
+			allInstrs(fn, func(in ssa.Instruction) {
+				st, ok := in.(*ssa.Store)
+				if !ok || !isMu(st.Val) {
+					return
+				}
+				f, _ := fieldOf(st.Addr)
+				if f == nil || muFields[f] {
+					return
+				}
+				res.build()
+				all := true
+				for _, sv := range res.fieldStore[f] {
+					if !isMu(sv) {
+						all = false
+					}
+				}
+				if all {
+					muFields[f] = true
+					changed = true
+				}
+			})
+		}
+	}
 	seen := map[string]bool{}
 	var visit func(fc fctx, depth int)
 	visit = func(fc fctx, depth int) {
@@ -618,6 +674,10 @@ func checkSerialised(c *Ctx, res *Resolver, impl *ssa.Function, sites []SQLSite)
 				}
 				for k, a := range args {
 					if fc.mu != nil && stripConv(a) == fc.mu && k+off < len(cal.Params) {
+						cmu = cal.Params[k+off]
+					}
+					// the mutex read back from the object it was put into
+					if lf, _ := loadedField(stripConv(a)); lf != nil && muFields[lf] && k+off < len(cal.Params) {
 						cmu = cal.Params[k+off]
 					}
 				}
